@@ -60,7 +60,7 @@ def cases(draw, rl):
                          "verbose": draw(st.booleans()), "folder": draw(st.booleans()),
                          "seeds": "spec" if v == 0 and draw(st.booleans()) else
                          draw(st.lists(st.integers(0, 2**31 - 1), min_size=3, max_size=3))})
-    return {"cfg": cfg, "n": n, "variants": variants, "fresh_twin": (not rl) and draw(st.integers(0, 5)) == 0}
+    return {"cfg": cfg, "n": n, "variants": variants, "fresh_twin": (not rl) and draw(st.integers(0, 9)) == 0}
 
 
 def run_variant(cfg, n, var, folder):
